@@ -446,6 +446,16 @@ pub fn rule_expr<C: AccShow>(out: &mut String, name: &str, content: &C) {
 }
 
 // ------------------------------------------------------------------------------------------------
+// entry `uprint`: which of the given characters `{:?}` prints as themselves (`char::escape_debug_ext`: printable and
+// not grapheme-extending; tables of the standard library).  The harness feeds this to the model's `strDebug` /
+// `charDebug` as their parameter `uprint`, and to its own recomputation of `format_as_tree`.
+
+pub fn run_uprint(input: &str) -> String {
+    let ok: String = input.chars().filter(|c| format!("{:?}", c) == format!("'{}'", c)).collect();
+    format!("v=ok\tprintable={}", hex(&ok))
+}
+
+// ------------------------------------------------------------------------------------------------
 // entry `acc`
 
 fn acc_with<'i, I: Input<'i>, R: RuleType, N: TypedNode<'i, R> + AccShow>(input: I) -> String {
